@@ -132,6 +132,12 @@ func flatten(md pmetric.Metrics) []point {
 // the exporter's sorted tree merges and reorders them. Values stay inside what the converters are
 // claimed to carry (C17 owns the conversion itself): no nested attribute maps, no -0.0/NaN.
 func genMetrics(r *rng.R, tag string, n int) pmetric.Metrics {
+	return genMetricsPad(r, tag, n, 0)
+}
+
+// genMetricsPad: as genMetrics; with pad > 0 every data point carries a distinct attribute value of
+// pad bytes, so that a moderate number of points fills more than one frame of the writer.
+func genMetricsPad(r *rng.R, tag string, n, pad int) pmetric.Metrics {
 	md := pmetric.NewMetrics()
 	left := n
 	idx := 0
@@ -182,6 +188,9 @@ func genMetrics(r *rng.R, tag string, n int) pmetric.Metrics {
 				for l := 0; l < np; l++ {
 					dp := dps.AppendEmpty()
 					dp.Attributes().PutStr("vid", fmt.Sprintf("%s-%d", tag, idx))
+					if pad > 0 {
+						dp.Attributes().PutStr("pad", fmt.Sprintf("%s-%d-", tag, idx)+strings.Repeat(string(rune('a'+idx%26)), pad))
+					}
 					idx++
 					if r.Bool() {
 						dp.Attributes().PutStr("host", fmt.Sprintf("h%d", r.Intn(4)))
